@@ -222,6 +222,7 @@ struct Stats {
 }
 
 struct Sink {
+    wl_store: Vec<Arc<Workload>>,
     oracle: Oracle,
     stats: Stats,
     violation: Option<Value>,
@@ -299,15 +300,30 @@ impl Sink {
                 let origin = self.cur_origin.clone();
                 let n = w.threads.len();
                 let small = w.ncalls() <= 64;
-                if let Err(m) = self.oracle.observe(ac, &e.outcome, || {
+                // explicit replay needs the workload of both observations; it is kept once per
+                // workload in a side table and referenced by index (soak workloads, 10^4..10^6
+                // calls, are replayed from their seed instead)
+                let wl_idx = if small {
+                    if self.wl_store.last().map(|x| !Arc::ptr_eq(x, &w)).unwrap_or(true) {
+                        self.wl_store.push(w.clone());
+                    }
+                    Some(self.wl_store.len() - 1)
+                } else {
+                    None
+                };
+                if let Err(mut m) = self.oracle.observe(ac, &e.outcome, || {
                     let mut c = coord_json(&origin, e, n);
-                    if small {
-                        // explicit replay needs the workload; soak workloads (10^4..10^6 calls) are
-                        // replayed from their seed instead
-                        c["workload"] = w.to_json();
+                    if let Some(i) = wl_idx {
+                        c["workload_idx"] = json!(i);
                     }
                     c
                 }) {
+                    for c in [&mut m.first.coord, &mut m.second_coord] {
+                        if let Some(i) = c.get("workload_idx").and_then(|x| x.as_u64()) {
+                            c["workload"] = self.wl_store[i as usize].to_json();
+                            c.as_object_mut().unwrap().remove("workload_idx");
+                        }
+                    }
                     let mut second = m.second_coord.clone();
                     second["schedule_task_ids"] = json!(self.rec.lock().unwrap().steps.clone());
                     let mut mj = m.to_json();
@@ -393,6 +409,7 @@ fn verif_shim_exec_counter() -> u64 {
 
 fn new_sink() -> Arc<Mutex<Sink>> {
     Arc::new(Mutex::new(Sink {
+        wl_store: vec![],
         oracle: Oracle::default(),
         stats: Stats::default(),
         violation: None,
@@ -422,9 +439,9 @@ struct RunPlan {
 
 fn tier_cfg(tier: &str) -> GenCfg {
     if tier == "thorough" {
-        GenCfg { max_threads: 6, max_calls: 12 }
+        GenCfg { max_threads: 6, max_calls: 12, long_inputs: true }
     } else {
-        GenCfg { max_threads: 4, max_calls: 6 }
+        GenCfg { max_threads: 4, max_calls: 6, long_inputs: true }
     }
 }
 
